@@ -40,6 +40,22 @@ CHECKS = {
                 technique="exhaustive enumeration: compiler-generated offsetof/sizeof/kind table from the preprocessed rebound.h vs ctypes field descriptors; option names vs C enumerators with C-side read-back; documented assignments executed literally",
                 text="Every member of the 26 mirrored structures is compared (offset, size, kind, signedness, name) between a gcc-compiled program generated from the tree's rebound.h and the ctypes classes of the tree's Python package; every named option value and function option is set by name in Python, read from C by a helper compiled against the header, compared with the enumerator of the same name and read back; every documented option assignment in the docs is executed. The whole finite domain is covered on this platform (exhaustive: true). One open known finding (python_unit_l/m/t order).",
                 note="Trusts gcc's layout being the library's (same compiler and defines), the harness's declaration parser (a generated program that does not compile is a harness error) and inspect.getsource for the field/property clash test. Enum members may be c_int or c_uint; pointer kinds are interchangeable. Linux x86-64 default build only."),
+    "C03": dict(level="exploration", design="1/C03",
+                technique="Hypothesis generation + independent 60-digit mpmath two-body propagation through classical/hyperbolic elements (bracketed Kepler solve) + forked-worker CPU-time termination oracle",
+                text="Generated two-body states over the stated element/step domain (3200 direct solver calls, 1200 single steps of 7 Wisdom-Holman-type schemes, 640 WHFast512 steps, 8000 termination probes per quick run; x40 thorough) agree with an independent 60-digit mpmath propagation within K=128 (|dt|<=P) / 1024 (|dt|>P) times the oracle's own 2-eps conditioning; every call returned within a CPU-time budget with finite output. Five open known findings bound the domain actually asserted: hyperbolic |dt|/P>10(e-1) (wrong state, bisection accuracy), elliptic |dt|>100 P, WHFast512 dt>0.2 min(T_q,5P) and its padding scale.",
+                note="Trusted: mpmath arithmetic (self-tested through conserved integrals and a round trip before each run); the allowance model (first half-step allowance propagated through the second for DKD schemes); CPU-time hang detection (5 s vs <1 ms normal cost); MERCURIUS/TRACE's own encounter flag defines 'away from encounters'."),
+    "C10": dict(level="exploration", design="1/C10",
+                technique="Hypothesis generation + inverse (time-reversal) round trip: bitwise comparison for JANUS (doubles and int64 state against a Python IEEE grid image), conditioned tolerance for the symmetric schemes",
+                text="1600 generated JANUS round trips per quick run (orders 2-10, position/velocity scales 1e-10..1e-16, N 2-6, n<=300 steps, both signs of dt) restore particle bit patterns and the integer state exactly; 3200 round trips of LEAPFROG, WHFast (4 coordinate systems x safe_mode), 10 uncorrected SABA types, 36 unprocessed EOS combinations and SEI return within 64 eps n (1+3 pi N_orb) scale (measured maxima 2.0-3.8 of 64). Thorough x25.",
+                note="Trusted: the Python IEEE grid image float(int(x/s))*s; the shear-growth model of rounding error for regular systems; generators stay in the regular (non-chaotic) regime; SEI pairs that could collide mid-run are skipped."),
+    "C09": dict(level="exploration", design="1/C09",
+                technique="Hypothesis twin / metamorphic runs over the option lattice: safe vs deferred synchronisation, keep_unsynchronized with generated interleavings of outputs vs untouched reference runs, idempotent synchronisation",
+                text="Generated systems x the documented WHFast/SABA/MERCURIUS/EOS/WHFast512 option lattice x generated step/sync/output schedules: deferred and safe mode agree to 16 eps (operator count) (steps+4) scale (measured margin 14x), EOS to its measured drift truncation error; with keep_unsynchronized every output equals bitwise the output of an untouched run stopped at that time, whatever synchronise/energy/orbits/copy/save/pickle calls came before; a second synchronize changes nothing for all integrators, including before the first step.",
+                note="Trusted: ctypes access to particle memory and the sa_format map; the tolerance constant was chosen from the measured error distribution after the corrector2 defect was fixed. WHFast512 subs need the avx512 build (skipped, and counted as skipped, on CPUs without avx512f)."),
+    "C19": dict(level="exploration", design="1/C19",
+                technique="Hypothesis-generated multi-simulation programs under harness-owned step-granular schedules and in parallel threads vs fresh-process isolated runs; loopback HTTP client against the built-in server with heartbeat-recorded step boundaries",
+                text="Generated programs of 2-8 simulations over all integrator families (steps, integrate, copy, save/load, pickle, synchronise, particle churn) run under a generated interleaving in one thread and in parallel threads; each final field map must equal bitwise the same program run alone in a fresh process. Served runs: every /simulation response equals the run's own heartbeat record of a step boundary (status/dt aside) and continues bitwise; serving never alters the final state nor other threads' descriptors. One open known finding (WHFast512 shared file-scope constants).",
+                note="Intra-call thread interleavings and request arrival times are sampled by the OS, not controlled: the oracle is schedule-independent, so a failure is real and a pass is weak evidence there; the step-granular schedule (interleave) is deterministic and replayable. Timeouts are counted, never verdicts."),
 }
 
 NOT_APPLICABLE = []
